@@ -398,19 +398,39 @@ Section Batch.
 End Batch.
 
 (* ------------------------------------------------------------------------------------ *)
-(* 4. The per-key machine of the correspondence: one string key of the executor           *)
-(*    (GET, SET, INCR, APPEND, DEL; a list = one atomic script/batch)                     *)
+(* 4. The per-key machine of the correspondence: one key of the executor                  *)
+(*    (strings, lists, sets, hashes; every single-key conditional / read-modify-write      *)
+(*    command the concurrent runs issue; a list = one atomic script/batch)                 *)
 (* ------------------------------------------------------------------------------------ *)
-Inductive prim := PGet | PSet (v : bytes) | PIncr | PAppend (v : bytes) | PDel.
+(* what one key holds; empty lists/sets/hashes do not exist (the executor deletes them) *)
+Inductive kst :=
+| KNone
+| KStr (b : bytes)
+| KList (l : list bytes)
+| KSet (l : list bytes)                 (* no duplicates, insertion order *)
+| KHash (l : list (bytes * bytes)).     (* no duplicate fields *)
+
+Inductive prim :=
+| PGet | PSet (v : bytes) | PIncrBy (z : Z) | PAppend (v : bytes) | PDel
+| PSetNx (v : bytes)
+| PSetOpt (v : bytes) (nx xx get : bool)        (* SET k v [NX|XX] [GET] *)
+| PGetSet (v : bytes) | PGetDel
+| PSetRange (off : nat) (v : bytes)
+| PExists
+| PLPush (v : bytes) | PRPush (v : bytes) | PLPop | PRPop | PLRange          (* LRANGE k 0 -1 *)
+| PSAdd (v : bytes) | PSRem (v : bytes) | PSMembers
+| PHSet (f v : bytes) | PHDel (f : bytes) | PHGetAll.
+Notation PIncr := (PIncrBy 1%Z).
+
 Inductive prep :=
 | RVal (v : option bytes)     (* bulk string / nil *)
 | ROk
 | RInt (z : Z)
 | RErrNotInt                  (* "ERR value is not an integer or out of range" *)
 | RErrOverflow                (* "ERR increment or decrement would overflow" *)
+| RWrongType                  (* "WRONGTYPE Operation against a key holding the wrong kind of value" *)
+| RArr (l : list bytes)       (* array of bulk strings; SMEMBERS / HGETALL canonicalised by sorting *)
 | ROther (text : bytes).      (* any other reply: never produced by the model *)
-
-Notation kval := (option bytes) (only parsing).
 
 Local Open Scope Z_scope.
 
@@ -451,31 +471,159 @@ Fixpoint digits_of (fuel : nat) (n : N) (acc : bytes) : bytes :=
 Definition dec_of_Z (z : Z) : bytes :=
   if z <? 0 then 45%N :: digits_of 20 (Z.to_N (- z)) [] else digits_of 20 (Z.to_N z) [].
 
-(* get_direct / set_direct / Command::Get / Command::Set (plain) / incr_by_impl(+1) /
-   execute_append / execute_del on a key that holds a string or nothing *)
-Definition prim_step (st : kval) (p : prim) : kval * prep :=
+(* lexicographic order on byte strings (Rust `Vec<u8>: Ord`), insertion sort *)
+Fixpoint bytes_leb (a b : bytes) : bool :=
+  match a, b with
+  | [], _ => true
+  | _ :: _, [] => false
+  | x :: a', y :: b' => if (x <? y)%N then true else if (y <? x)%N then false else bytes_leb a' b'
+  end.
+Fixpoint insert_by {A} (le : A -> A -> bool) (x : A) (l : list A) : list A :=
+  match l with
+  | [] => [x]
+  | y :: t => if le x y then x :: l else y :: insert_by le x t
+  end.
+Definition sort_by {A} (le : A -> A -> bool) (l : list A) : list A := fold_right (insert_by le) [] l.
+
+Definition mem_bytes (v : bytes) (l : list bytes) : bool := existsb (bytes_eqb v) l.
+Definition remove_bytes (v : bytes) (l : list bytes) : list bytes := filter (fun x => negb (bytes_eqb v x)) l.
+Definition has_field (f : bytes) (l : list (bytes * bytes)) : bool := existsb (fun p => bytes_eqb f (fst p)) l.
+Definition del_field (f : bytes) (l : list (bytes * bytes)) : list (bytes * bytes) :=
+  filter (fun p => negb (bytes_eqb f (fst p))) l.
+Definition set_field (f v : bytes) (l : list (bytes * bytes)) : list (bytes * bytes) :=
+  map (fun p => if bytes_eqb f (fst p) then (f, v) else p) l.
+Definition klist (l : list bytes) : kst := match l with [] => KNone | _ => KList l end.
+Definition kset (l : list bytes) : kst := match l with [] => KNone | _ => KSet l end.
+Definition khash (l : list (bytes * bytes)) : kst := match l with [] => KNone | _ => KHash l end.
+
+(* execute_setrange: pad with zero bytes up to offset, overwrite, keep the tail *)
+Definition setrange (s : bytes) (off : nat) (v : bytes) : bytes :=
+  firstn off (s ++ repeat 0%N (off - length s)) ++ v ++ skipn (off + length v) s.
+
+(* get_direct / set_direct and the generic-path commands of string_ops.rs, list_ops.rs,
+   set_ops.rs, hash_ops.rs, key_ops.rs on one key, arm by arm (no expiry) *)
+Definition prim_step (st : kst) (p : prim) : kst * prep :=
   match p with
-  | PGet => (st, RVal st)
-  | PSet v => (Some v, ROk)
-  | PIncr =>
+  | PGet => match st with
+            | KNone => (st, RVal None) | KStr b => (st, RVal (Some b)) | _ => (st, RWrongType) end
+  | PSet v => (KStr v, ROk)
+  | PIncrBy z =>
       match st with
-      | None => (Some (dec_of_Z 1), RInt 1)
-      | Some b =>
+      | KNone => (KStr (dec_of_Z z), RInt z)
+      | KStr b =>
           match parse_i64 b with
           | None => (st, RErrNotInt)
-          | Some n => if n + 1 <=? I64_MAX then (Some (dec_of_Z (n + 1)), RInt (n + 1))
+          | Some n => if in_i64 (n + z) then (KStr (dec_of_Z (n + z)), RInt (n + z))
                       else (st, RErrOverflow)
           end
+      | _ => (st, RWrongType)
       end
   | PAppend v =>
       match st with
-      | None => (Some v, RInt (Z.of_nat (length v)))
-      | Some b => (Some (b ++ v), RInt (Z.of_nat (length (b ++ v))))
+      | KNone => (KStr v, RInt (Z.of_nat (length v)))
+      | KStr b => (KStr (b ++ v), RInt (Z.of_nat (length (b ++ v))))
+      | _ => (st, RWrongType)
       end
-  | PDel => (None, RInt (match st with Some _ => 1 | None => 0 end))
+  | PDel => (KNone, RInt (match st with KNone => 0 | _ => 1 end))
+  | PSetNx v => match st with KNone => (KStr v, RInt 1) | _ => (st, RInt 0) end
+  | PSetOpt v nx xx get =>
+      let present := match st with KNone => false | _ => true end in
+      let old := match st with KStr b => Some b | _ => None end in
+      let wrong := match st with KNone | KStr _ => false | _ => true end in
+      if (get && wrong)%bool then (st, RWrongType)
+      else if (nx && present)%bool then (st, if get then RVal old else RVal None)
+      else if (xx && negb present)%bool then (st, RVal None)
+      else (KStr v, if get then RVal old else ROk)
+  | PGetSet v =>
+      match st with
+      | KNone => (KStr v, RVal None) | KStr b => (KStr v, RVal (Some b)) | _ => (st, RWrongType) end
+  | PGetDel =>
+      match st with
+      | KNone => (st, RVal None) | KStr b => (KNone, RVal (Some b)) | _ => (st, RWrongType) end
+  | PSetRange off v =>
+      match v with
+      | [] => match st with
+              | KNone => (st, RInt 0) | KStr b => (st, RInt (Z.of_nat (length b))) | _ => (st, RWrongType) end
+      | _ => match st with
+             | KNone => (KStr (setrange [] off v), RInt (Z.of_nat (length (setrange [] off v))))
+             | KStr b => (KStr (setrange b off v), RInt (Z.of_nat (length (setrange b off v))))
+             | _ => (st, RWrongType)
+             end
+      end
+  | PExists => (st, RInt (match st with KNone => 0 | _ => 1 end))
+  | PLPush v =>
+      match st with
+      | KNone => (KList [v], RInt 1)
+      | KList l => (KList (v :: l), RInt (Z.of_nat (Datatypes.S (length l))))
+      | _ => (st, RWrongType)
+      end
+  | PRPush v =>
+      match st with
+      | KNone => (KList [v], RInt 1)
+      | KList l => (KList (l ++ [v]), RInt (Z.of_nat (Datatypes.S (length l))))
+      | _ => (st, RWrongType)
+      end
+  | PLPop =>
+      match st with
+      | KNone => (st, RVal None)
+      | KList [] => (KNone, RVal None)
+      | KList (x :: t) => (klist t, RVal (Some x))
+      | _ => (st, RWrongType)
+      end
+  | PRPop =>
+      match st with
+      | KNone => (st, RVal None)
+      | KList l => match rev l with
+                   | [] => (KNone, RVal None)
+                   | x :: t => (klist (rev t), RVal (Some x))
+                   end
+      | _ => (st, RWrongType)
+      end
+  | PLRange => match st with
+               | KNone => (st, RArr []) | KList l => (st, RArr l) | _ => (st, RWrongType) end
+  | PSAdd v =>
+      match st with
+      | KNone => (KSet [v], RInt 1)
+      | KSet l => if mem_bytes v l then (st, RInt 0) else (KSet (l ++ [v]), RInt 1)
+      | _ => (st, RWrongType)
+      end
+  | PSRem v =>
+      match st with
+      | KNone => (st, RInt 0)
+      | KSet l => if mem_bytes v l then (kset (remove_bytes v l), RInt 1) else (st, RInt 0)
+      | _ => (st, RWrongType)
+      end
+  | PSMembers => match st with
+                 | KNone => (st, RArr []) | KSet l => (st, RArr (sort_by bytes_leb l)) | _ => (st, RWrongType) end
+  | PHSet f v =>
+      match st with
+      | KNone => (KHash [(f, v)], RInt 1)
+      | KHash l => if has_field f l then (KHash (set_field f v l), RInt 0) else (KHash (l ++ [(f, v)]), RInt 1)
+      | _ => (st, RWrongType)
+      end
+  | PHDel f =>
+      match st with
+      | KNone => (st, RInt 0)
+      | KHash l => if has_field f l then (khash (del_field f l), RInt 1) else (st, RInt 0)
+      | _ => (st, RWrongType)
+      end
+  | PHGetAll =>
+      match st with
+      | KNone => (st, RArr [])
+      | KHash l => (st, RArr (flat_map (fun p => [fst p; snd p])
+                                (sort_by (fun a b => bytes_leb (fst a) (fst b)) l)))
+      | _ => (st, RWrongType)
+      end
   end.
 
-Definition kstep : kval -> list prim -> kval * list prep := batch_step _ _ _ prim_step.
+Definition kstep : kst -> list prim -> kst * list prep := batch_step _ _ _ prim_step.
+
+Fixpoint bytes_list_eqb (a b : list bytes) : bool :=
+  match a, b with
+  | [], [] => true
+  | x :: a', y :: b' => bytes_eqb x y && bytes_list_eqb a' b'
+  | _, _ => false
+  end.
 
 Definition prep_eqb (a b : prep) : bool :=
   match a, b with
@@ -485,6 +633,8 @@ Definition prep_eqb (a b : prep) : bool :=
   | RInt x, RInt y => x =? y
   | RErrNotInt, RErrNotInt => true
   | RErrOverflow, RErrOverflow => true
+  | RWrongType, RWrongType => true
+  | RArr x, RArr y => bytes_list_eqb x y
   | ROther x, ROther y => bytes_eqb x y   (* the model never produces ROther *)
   | _, _ => false
   end.
@@ -497,22 +647,22 @@ Fixpoint preps_eqb (a b : list prep) : bool :=
 
 Notation khist := (list (oprec (list prim) (list prep))) (only parsing).
 
-Definition lin_check (init : kval) (h : khist) : bool :=
+Definition lin_check (init : kst) (h : khist) : bool :=
   lin_check_gen _ _ _ kstep preps_eqb init h.
-Definition lin_brute (init : kval) (h : khist) : bool :=
+Definition lin_brute (init : kst) (h : khist) : bool :=
   lin_brute_gen _ _ _ kstep preps_eqb init h.
 
 (* ------------------------------------------------------------------------------------ *)
 (* 5. A small keyed store: the shape of machine the per-key theorem is about             *)
 (*    (keys are numbers here; an operation names its key and carries an atomic list)      *)
 (* ------------------------------------------------------------------------------------ *)
-Notation store := (nat -> option bytes) (only parsing).
+Notation store := (nat -> kst) (only parsing).
 Notation store_op := (nat * list prim)%type (only parsing).
 
 Definition store_step (s : store) (op : store_op) : store * list prep :=
   (upd s (fst op) (fst (kstep (s (fst op)) (snd op))), snd (kstep (s (fst op)) (snd op))).
 Definition store_touches (op : store_op) (k : nat) : bool := Nat.eqb (fst op) k.
-Definition store_view (s : store) (k : nat) : option bytes := s k.
-Definition store_kstep (k : nat) (v : option bytes) (op : store_op) : option bytes * list prep :=
+Definition store_view (s : store) (k : nat) : kst := s k.
+Definition store_kstep (k : nat) (v : kst) (op : store_op) : kst * list prep :=
   kstep v (snd op).
 Definition store_route (n : nat) (op : store_op) : nat := Nat.modulo (fst op) n.
